@@ -31,7 +31,9 @@ structure LeafDesc where
 structure Case where
   domain : Bytes
   path : Path
-  flags : Nat
+  /-- successive xmpp_conn_set_flags words -/
+  flags : List Nat
+  /-- the handler as installed after the last xmpp_conn_set_certfail_handler call -/
   cb : CbMode
   ca : CaMode
   srv : SrvMode
@@ -42,6 +44,8 @@ structure DS where
   cfg : Option Case := none
   sess : Option Sess := none
   started : Bool := false
+  /-- CA mode of the previous round on the same connection object -/
+  prevCa : Option CaMode := none
   facts : Option (List VCall) := none
   hr : Option Nat := none
   badLine : Bool := false
@@ -116,8 +120,13 @@ def parseCfg (toks : List String) : Option Case := do
   if !(toks.all fun t => known.any fun k => t.startsWith (k ++ "=")) then none
   let dom ← (kv toks "dom") >>= Hex.toBytes
   let path ← (kv toks "path") >>= parsePath
-  let flags ← (match kv toks "flags" with | some f => f.toNat? | none => some 0)
-  let cb ← (match kv toks "cb" with | some f => parseCb f | none => some .none)
+  let flags ← (match kv toks "flags" with | some f => (f.splitOn ",").mapM (·.toNat?) | none => some [0])
+  -- every entry is one xmpp_conn_set_certfail_handler call: the last one decides whether a handler is
+  -- installed, the last one that is not `none` how it behaves
+  let cbs ← (match kv toks "cb" with | some f => (f.splitOn ",").mapM parseCb | none => some [.none])
+  let installed := match cbs.getLast? with | some .none => false | some _ => true | none => false
+  let behaviour := (cbs.filter fun c => match c with | .none => false | _ => true).getLast?
+  let cb := if installed then behaviour.getD .none else .none
   let ca ← (match kv toks "ca" with | some f => parseCa f | none => some .none)
   let srv ← (match kv toks "srv" with | some f => parseSrv f | none => some .ok)
   let leaf ← (kv toks "leaf") >>= parseLeaf
@@ -137,13 +146,17 @@ def parseFacts (s : String) : Option (List VCall) :=
       | _, _, _ => none
     | _ => none
 
-/-- the flag word the scenario supports: DISABLE_TLS (1) or TRUST_TLS (8) (xmpp_conn_set_flags refuses
-    the two together); LEGACY_SSL (4) is added by the path -/
-def flagsOk (f : Nat) : Bool := f == 0 || f == 1 || f == 8
+/-- the flag words the scenario supports: DISABLE_TLS (1), TRUST_TLS (8) (and the two together,
+    which xmpp_conn_set_flags refuses); LEGACY_SSL (4) is added to every word by path l -/
+def flagsOk (c : Case) : Bool := c.flags.all fun f => f == 0 || f == 1 || f == 8 || f == 9
 
-def policyOf (c : Case) : Policy :=
-  { domain := c.domain, trust := c.flags / 8 % 2 == 1, disabled := c.flags % 2 == 1,
-    handler := handlerOf c.cb }
+def wordOf (c : Case) (f : Nat) : Nat := if c.path == .legacy then f + 4 else f
+
+/-- the policy after the xmpp_conn_set_flags calls; `none` when the last call was refused -/
+def policyOf (c : Case) : Option Policy :=
+  let p0 : Policy := { domain := c.domain, handler := handlerOf c.cb }
+  let r := c.flags.foldl (fun (acc : Policy × Bool) f => setFlags acc.1 (wordOf c f)) (p0, true)
+  if r.2 then some r.1 else none
 
 /-- the property-level description of the peer's chain, from the certificate description -/
 def certOf (c : Case) : PeerCert :=
@@ -196,14 +209,18 @@ def callText (c : VCall × Int) : String := s!"{b01 c.1.ok}:{c.1.depth}:{c.1.err
 def uhText (c : VCall × Int) : String := s!"{c.1.depth}:{c.1.err}:{c.2}"
 
 def doStart (d : DS) (c : Case) : DS × String :=
-  if !flagsOk c.flags || (c.path == .legacy && c.flags % 2 == 1) then (d, "= start bad-flags")
-  else if connectRefused c.domain then
-    ({ d with started := true }, s!"= start connect-failed {Gen.Tls.connectDomainRc}")
+  let d0facts := d.facts.getD []
+  let d0hr := d.hr.getD 0
+  let d := { d with started := true, sess := none, cfg := none, prevCa := some c.ca, facts := none, hr := none }
+  match (if flagsOk c then policyOf c else none) with
+  | none => (d, "= start bad-flags")
+  | some p =>
+  if connectRefused c.domain then
+    (d, s!"= start connect-failed {Gen.Tls.connectDomainRc}")
   else
-    let facts := d.facts.getD []
-    let hr := d.hr.getD 0
+    let facts := d0facts
+    let hr := d0hr
     let E := replayEngine c facts hr
-    let p := policyOf c
     let s := start E p c.path
     let ran := s.hs.isSome
     let calls := match s.hs with | some o => o.calls | none => []
@@ -223,14 +240,21 @@ def doStart (d : DS) (c : Case) : DS × String :=
 def stepOp (d : DS) (toks : List String) : DS × String :=
   match toks with
   | "cfg" :: rest =>
-    if d.started then (d, "= bad-op")
-    else match parseCfg rest with
-      | some c => ({ d with cfg := some c }, "= cfg ok")
-      | none => ({ d with cfg := none }, "= bad-op")
+    -- another round on the same connection object needs it to be disconnected; a CA file / path
+    -- cannot be taken back
+    let busy := match d.sess with | some s => s.conn.state == .connected | none => false
+    match parseCfg rest with
+    | some c =>
+      let sticky := match d.prevCa with
+        | some pc => pc != c.ca && (c.ca == .none || c.ca == .env) && !(pc == .none || pc == .env)
+        | none => false
+      if busy || sticky then ({ d with cfg := none }, "= bad-op")
+      else ({ d with cfg := some c }, "= cfg ok")
+    | none => ({ d with cfg := none }, "= bad-op")
   | ["start"] =>
-    match d.cfg, d.started with
-    | some c, false => doStart d c
-    | _, _ => (d, "= bad-op")
+    match d.cfg with
+    | some c => doStart d c
+    | none => (d, "= bad-op")
   | ["probe"] | ["probe", "raw"] =>
     match d.sess, d.started with
     | some s, _ =>
@@ -239,6 +263,13 @@ def stepOp (d : DS) (toks : List String) : DS × String :=
     | none, true =>
       -- the connection object exists but was never connected: nothing can be sent
       (d, "= io sec=0 st=d ev=- clear=- enc=-")
+    | none, false => (d, "= bad-op")
+  | ["drop"] =>
+    match d.sess, d.started with
+    | some s, _ =>
+      let (s', io) := report (drop s)
+      ({ d with sess := some s' }, "= io " ++ io)
+    | none, true => (d, "= io sec=0 st=d ev=- clear=- enc=-")
     | none, false => (d, "= bad-op")
   | ["tick", ms] =>
     match ms.toNat?, d.sess, d.started with
